@@ -30,6 +30,9 @@ type F struct {
 	V   uint64 // varint / fixed value
 	B   []byte // bytes payload (if M == nil)
 	M   *Msg   // sub-message payload
+
+	TagOv *uint64 // adversarial: write this value instead of the tag varint
+	LenOv *uint64 // adversarial: write this value instead of the length varint
 }
 
 type Msg struct{ F []F }
@@ -69,7 +72,11 @@ func (m *Msg) enc(b []byte, marks *[]Mark, depth int, path string) ([]byte, int)
 	for i, f := range m.F {
 		p := fmt.Sprintf("%s/%d#%d", path, f.Num, i)
 		off := len(b)
-		b = AppendVarint(b, uint64(f.Num)<<3|uint64(f.WT))
+		if f.TagOv != nil {
+			b = AppendVarint(b, *f.TagOv)
+		} else {
+			b = AppendVarint(b, uint64(f.Num)<<3|uint64(f.WT))
+		}
 		if marks != nil {
 			*marks = append(*marks, Mark{Off: off, Len: len(b) - off, Kind: "tag", Depth: depth, Path: p, Val: uint64(f.Num)<<3 | uint64(f.WT)})
 		}
@@ -87,7 +94,11 @@ func (m *Msg) enc(b []byte, marks *[]Mark, depth int, path string) ([]byte, int)
 				payload, _ = f.M.enc(nil, &subMarks, depth+1, p)
 			}
 			off := len(b)
-			b = AppendVarint(b, uint64(len(payload)))
+			if f.LenOv != nil {
+				b = AppendVarint(b, *f.LenOv)
+			} else {
+				b = AppendVarint(b, uint64(len(payload)))
+			}
 			if marks != nil {
 				*marks = append(*marks, Mark{Off: off, Len: len(b) - off, Kind: "len", Depth: depth, Path: p, Val: uint64(len(payload))})
 				base := len(b)
